@@ -112,6 +112,9 @@ type runner[T uint32 | uint64] struct {
 	cfg  Config
 	objs map[string]cardinality.Duplex[T]
 	inv  map[T]int
+	// clones are taken alternately through the Clone method and through the package helper cardinality.CloneProvider;
+	// which one comes first depends on the length of the history only, so that a history replays the same way alone
+	hi, nclone int
 }
 
 func newProvider[T uint32 | uint64](width int, impl string) cardinality.Duplex[T] {
@@ -194,7 +197,14 @@ func (r *runner[T]) apply(o Op, ev *Ev) {
 	case "clear":
 		obj.Clear()
 	case "clone":
-		r.objs["C"] = obj.Clone()
+		r.nclone++
+		if (r.hi+r.nclone)%2 == 0 {
+			r.objs["C"] = obj.Clone()
+		} else if c, ok := cardinality.CloneProvider[T](obj).(cardinality.Duplex[T]); ok {
+			r.objs["C"] = c
+		} else {
+			tr.Fatal("CloneProvider of a duplex did not return a duplex")
+		}
 	case "or":
 		obj.Or(r.objs[o.P])
 	case "and":
@@ -209,7 +219,7 @@ func (r *runner[T]) apply(o Op, ev *Ev) {
 }
 
 func runHist[T uint32 | uint64](w *tr.Writer, hid int, h Hist, cfg Config, ci, hi int) {
-	r := &runner[T]{cfg: cfg, objs: map[string]cardinality.Duplex[T]{}, inv: map[T]int{}}
+	r := &runner[T]{cfg: cfg, objs: map[string]cardinality.Duplex[T]{}, inv: map[T]int{}, hi: len(h.Ops)}
 	for i := 0; i < 8; i++ {
 		r.inv[r.val(i)] = i
 	}
